@@ -12,6 +12,7 @@ import (
 	"path/filepath"
 	"strings"
 	"sync"
+	"sync/atomic"
 	"time"
 )
 
@@ -71,6 +72,8 @@ func runSolver(sp solverSpec, file string, timeoutS int) solveResult {
 	return solveResult{ans, sp.name, secs, raw}
 }
 
+var fileCounter int64
+
 type Solver struct {
 	dir      string
 	timeoutS int
@@ -90,10 +93,7 @@ func newSolver(timeoutS int) (*Solver, error) {
 func (s *Solver) cleanup() { os.RemoveAll(s.dir) }
 
 func (s *Solver) file(text string) string {
-	s.mu.Lock()
-	s.n++
-	n := s.n
-	s.mu.Unlock()
+	n := atomic.AddInt64(&fileCounter, 1)
 	p := filepath.Join(s.dir, fmt.Sprintf("q%d.smt2", n))
 	os.WriteFile(p, []byte(text), 0o644)
 	return p
@@ -117,7 +117,7 @@ func (s *Solver) discharge(c *Ctx, o *Obligation) {
 	t := o.SolverS
 	if slicedStatus == "REFUTED" {
 		// a candidate counterexample exists: give the full query a short try only
-		s2 := &Solver{dir: s.dir, timeoutS: min(s.timeoutS, 4), agree: s.agree, n: 1000000 + s.n}
+		s2 := &Solver{dir: s.dir, timeoutS: min(s.timeoutS, 4), agree: s.agree}
 		s2.run(c, o, c.query(o, false), false)
 	} else {
 		s.run(c, o, c.query(o, false), false)
